@@ -5,12 +5,17 @@ from props._read import Trunc
 PROP = 'C08'
 PROPS_MODULES = ['LA.Props.C08']
 GEN = ['Limits']
-ASSUMPTIONS = ['single data node; seek faults not yet in the model', 'malloc never fails']
+ASSUMPTIONS = ['malloc never fails',
+               'client open/close/switch callbacks succeed; seek callback is file-like; a failing seek callback does not move',
+               'NoSeekSkip: a source with a seek callback also has a skip callback (open finding skip-by-seek)',
+               'after a failed seek the client seeks successfully before it reads again (open finding seek-failure-desync)']
 TRUSTED = []
 MANIFEST = {
     'text': 'partial: Lean theorems for the read-ahead/consume window of archive_read.c under truncation and callback '
             'faults (error, end-of-file, short or failing skip at any invocation): what is delivered is a prefix of the '
-            'intact stream, errors are sticky. Tied to the C by the rda engine with fault scripts.',
+            'intact stream, errors are sticky; a seek is never silent: for every seek-callback script it reports failure '
+            'or leaves the filter consistent exactly at the position it returns, out-of-range targets are refused. '
+            'Tied to the C by the rda engine with fault scripts (read, skip and seek callbacks).',
     'technique': 'Lean 4 proof (prefix monotonicity over client programs, fault absorption) + model/C differential correspondence with fault scripts',
     'note': 'Unmodelled format parsers are covered only through the interface contract; see DESIGN.md C08.',
 }
